@@ -53,6 +53,13 @@ def gen_cases(tier, rng, harder=False):
         for n in range(0, 25):
             for stale in (0, 1):
                 cases.append("hsprefix %s %d %d" % (tr, n, stale))
+        # closed() asking r times to be called again; the bystander mid-request at the death
+        for sc in ((1, 2, 3, 4) if thorough else (2, 3)):
+            for pol in ((0, 1, 2, 3) if thorough else (0, 3)):
+                off = rng.randrange(4)
+                for k in range(0, KMAX_CLIENT + 1):
+                    if thorough or k % 4 == off:
+                        cases.append("cdeathx %s %d %d %d %d 1" % (tr, sc, k, pol, 1 + (k % 3)))
         for T in ((-1, 300, 5000) if thorough else (-1, 300)):
             off = rng.randrange(2)
             for k in range(0, KMAX_SERVER + 1):
@@ -81,7 +88,7 @@ def run_parallel(exe, cases):
     return results
 
 
-LOGRE = re.compile(r"^(|AD|ACM*LD)$")
+LOGRE = re.compile(r"^(|AD|ACM*L+D)$")
 CB = {"accept": "A", "created": "C", "msg": "M", "closed": "L", "destroyed": "D"}
 
 
@@ -108,7 +115,7 @@ def monitor_client(case, lines, crash):
         elif w[0] == "cut":
             seen_cut = True
             info["cut"] = l
-        elif w[0] in ("census", "bystander", "probe", "final", "dying", "prefix", "child"):
+        elif w[0] in ("census", "bystander", "probe", "final", "dying", "prefix", "child", "midreq"):
             got[w[0]] = kv(l)
         elif w[0] in ("STUCK", "NOT-QUIESCENT", "TOO-MANY", "STALE-FD", "r"):
             bad.append(l)
@@ -125,6 +132,15 @@ def monitor_client(case, lines, crash):
         for k, v in want.items():
             if got[sect].get(k) != v:
                 bad.append("%s: %s=%s (expected %s)" % (sect, k, got[sect].get(k), v))
+    if case.startswith("cdeathx"):
+        r = int(case.split()[5])
+        if "C" in dlog and dlog.count("L") != r + 1:
+            bad.append("connection_closed() asked %d times to be called again: called %d times (%s)" % (r, dlog.count("L"), dlog))
+        if case.split()[6] == "1" and got.get("midreq", {}).get("answered") != "1":
+            bad.append("the bystander's request that was in flight at the death was not answered: %s" % got.get("midreq"))
+    cutkv = kv(info.get("cut", "cut"))
+    info["evq"] = int(cutkv.get("evq", "-1"))
+    info["notifiers"] = int(cutkv.get("notifiers", "0"))
     info["census"] = got.get("census", {})
     info["stall_ms"] = int(got.get("census", {}).get("stall_ms", "0"))
     return bad, info
@@ -137,7 +153,7 @@ def model_query(case, info, lines):
     cut = info.get("cut", "").split()
     if len(cut) < 2:
         return None
-    if w[0] == "cdeath":
+    if w[0] in ("cdeath", "cdeathx"):
         stale = (int(w[4]) >> 1) & 1
         k = int(w[3])
     else:
@@ -174,6 +190,9 @@ def judge_client(case, lines, crash, pred):
         p = kv(pred)
         prefix = "AC" if " conn " in (" " + info.get("cut", "") + " ") else ""
         mpost = p["log"][len(prefix):] if p["log"].startswith(prefix) else p["log"]
+        if case.startswith("cdeathx"):
+            # the model's connection_closed() returns 0 (the re-run job is C04's theorem): compare modulo repeated closed
+            info["post"] = re.sub(r"L+", "L", info["post"])
         cen = info["census"]
         diffs = []
         if mpost != info["post"]:
